@@ -13,15 +13,15 @@ BUILT = set(["C%02d" % i for i in range(1, 18)])
 # id -> (category, technique, level text, extra note, design ref)
 P = {
  "C01": ("exploration",
-         "differential testing against a bit-slice reference encoder: complete (language,size,position,index) pairwise table + rapid structured entropies (incl. text-like bytes and literals harvested from the source) + concurrent and after-validation variants",
+         "differential testing against a bit-slice reference encoder: complete (language,size,position,index) pairwise table + rapid structured entropies (incl. text-like bytes and literals harvested from the source) + concurrent and after-validation variants; the same oracle after rapid-generated histories of earlier calls in the same goroutine and in freshly started processes for every language x first-use pattern",
          "NewMnemonicByEntropy is compared byte-for-byte with an independent encoder over golden lists on a table that executes every (language, size, word position, 11-bit index) tuple and every first-SHA-256-byte value at every checksum width, on the extreme-byte-length sentences of every list, and on structured random entropies (leading zero bytes, bit runs, text-like bytes, source literals); each case also re-checks the returned sentence after a later call and a refilled, reused buffer; the table is repeated after validations and under 8 concurrent callers. Pairwise-complete, not exhaustive over 2^128..2^256 entropies.",
          "", "6/C01"),
  "C02": ("exploration",
-         "round-trip property (generate -> validate) over the pairwise table, leading-zero-byte sweeps, extreme-length sentences, scripted and default randomness sources, reference-assembled valid sentences, and a concurrent variant",
+         "round-trip property (generate -> validate) over the pairwise table, leading-zero-byte sweeps, extreme-length sentences, scripted and default randomness sources, reference-assembled valid sentences, and a concurrent variant; one rapid case in four runs directly after a generated history of earlier calls (rejected typos, failing sources, other languages)",
          "Every generated mnemonic (by entropy, by NewMnemonic under a scripted source and under the default source) and every sentence assembled from golden words with a reference-solved checksum must be accepted by CheckMnemonic and IsMnemonicValid; leading zero bytes k=0..size are enumerated for every size and language, the longest/shortest-word sentences for every language and count, and 8 goroutines repeat the round trip concurrently in mixed languages.",
          "", "6/C02"),
  "C03": ("exploration",
-         "differential accept-set scans (all 2048 last words / all substitutions) against the reference validator + one-directional soundness oracle on defect-mutated, primed and arbitrary strings + concurrent cross-language variant; native go fuzzing of a structured sentence-mutation target in the thorough tier",
+         "differential accept-set scans (all 2048 last words / all substitutions) against the reference validator + one-directional soundness oracle on defect-mutated, primed and arbitrary strings + concurrent cross-language variant; giant separator-free tokens at buffer limits (4 KiB, 64 KiB); one rapid case in four after a generated history of earlier calls; native go fuzzing of a structured sentence-mutation target in the thorough tier",
          "For generated prefixes all 2048 final words are validated and the accepted set must be exactly the reference's 2^(11-n/3) solutions; all substitutions at generated positions; single-defect mutants (20 classes incl. empty tokens, stripped/added marks, invisible affixes, counts wrapping modulo 2^8/2^16, foreign words, separator damage) and arbitrary Unicode/byte strings, optionally right after the same text was validated under its home language, must never be accepted unless the most liberal reading (strings.Fields of the NFKD form) is a valid mnemonic; IsMnemonicValid must agree with CheckMnemonic everywhere; 12 goroutines validate valid, foreign and damaged sentences at once.",
          "A stricter-than-necessary validator (e.g. rejecting doubled spaces) is deliberately not flagged.", "6/C03"),
  "C04": ("exploration",
@@ -29,23 +29,23 @@ P = {
          "MnemonicToSeed is compared with an independent PBKDF2/HMAC implementation on generated (mnemonic, passphrase) pairs: empty, non-mnemonics, NFKD length exactly at / around the 64/128/256-byte HMAC boundaries, non-NFKD text, low-rune strings just under typical fast-path thresholds, highest-expansion compatibility runes, marks on both sides of the salt boundary, the (a+b,c) vs (a,b+c) concatenation twins, up to 1 MiB; each result must be 64 bytes and must not share memory with an earlier result; 16 goroutines derive different seeds at once.",
          "NFKD itself comes from golang.org/x/text (same module version as /repo); hand-stated Unicode facts are asserted in the self-test to keep this from being purely circular.", "6/C04"),
  "C05": ("exploration",
-         "round-trip through an independent decoder + metamorphic single-bit-flip relation + concurrent variant",
+         "round-trip through an independent decoder + metamorphic single-bit-flip relation + concurrent variant; the same after generated histories and in freshly started processes for every language x first-use pattern; the generating entry point under scripted fragmenting / stalling sources (sentence must decode to the delivered bytes)",
          "Sentences returned for the pairwise table, the extreme-length sentences and random structured entropies are decoded by the reference decoder and must give back the entropy; for the random and extreme cases all ENT single-bit flips must change the sentence and decode to the flipped entropy; the decode round trip also runs under 8 concurrent callers.",
          "", "6/C05"),
  "C06": ("fault_enumeration",
-         "complete enumeration of failure point x failure kind x fragmentation x language under a scripted randomness source (verif hook) + rapid-generated reader scripts (half after a priming validation) + a concurrent mixed-outcome variant, against the reference encoder; native fuzzing of the script generator in the thorough tier",
+         "complete enumeration of failure point x failure kind x fragmentation x language under a scripted randomness source (verif hook) + rapid-generated reader scripts (half after a priming validation) + 13 operating-system error kinds and stalling sources (two-sided oracle) + a concurrent mixed-outcome variant, against the reference encoder; native fuzzing of the script generator in the thorough tier",
          "Every failure point k in 0..4n/3-1 for each of the five counts, five failure kinds (EOF, ErrUnexpectedEOF, plain error, EAGAIN, timeout), error alone or with bytes, three fragmentations and ten languages is injected (36 000 scripts), plus every fragmentation class of a successful delivery (incl. the error arriving with the completing bytes: success required) and tens of thousands of random scripts; the bytes delivered up to the first failure decide the expected outcome exactly; the source keeps delivering after a failure so retry/fallback/latching behaviour is visible; 8 goroutines mix failing and succeeding calls on one stateless source.",
          "", "6/C06"),
  "C07": ("exploration",
-         "fresh-process probing of source identity through the verif hook, byte-exact tee oracle, and fixed-data / repetition / bias screens over genuinely unswapped default outputs",
+         "fresh-process probing of source identity through the verif hook, byte-exact tee oracle, fixed-data / repetition / bias screens over genuinely unswapped default outputs, and fault injection into the default source itself (18 error kinds x failure points: no sentence may be made of bytes the source did not deliver)",
          "In freshly started processes, after generated histories of non-swapping calls (incl. rejected sizes), the value the swap hook returns must be crypto/rand.Reader itself; NewMnemonic called through a recording tee around that source must return exactly the reference encoding of the bytes drawn; thousands of unswapped default outputs of mixed sizes drawn back to back must show no run of fixed bytes, no repeat and no biased bit.",
          "Randomness quality cannot be established by sampling; the claim rests on identity plus byte-exactness.", "6/C07"),
  "C08": ("exploration",
-         "complete enumeration of the finite domain 10 x 2048 against embedded golden lists (API output and source text), accept-set scans per word, shared-word cross-language sentences",
+         "complete enumeration of the finite domain 10 x 2048 against embedded golden lists (API output and source text), accept-set scans per word (every second word directly after a rejected typo), shared-word cross-language sentences, cold concurrent first use in fresh processes",
          "The word the API emits for each of the 10 x 2048 indices, and the list declared in internal/wordlist/*.go, are compared with golden lists (digest-pinned) and checked for the stated structural facts; for each word, sentences containing it are scanned over candidate last words and the accepted set must equal the reference solution set for that index; sentences made only of words two lists share are validated alternately under both languages. Exhaustive over the finite domain; the canonical lists themselves are trusted data.",
          "The golden Portuguese list has no external digest corroboration (checked structurally only).", "6/C08"),
  "C09": ("exploration",
-         "exhaustive range enumeration of lengths and counts + rapid Int generation (also as a native fuzz target in the thorough tier), with a counting randomness source installed through the verif hook",
+         "exhaustive range enumeration of lengths and counts + rapid Int generation (also as a native fuzz target in the thorough tier), with a counting randomness source installed through the verif hook; content-bearing sizes (text-like bytes of every length 0..130, extreme-length entropies of every language)",
          "Every entropy length 0..4096 (thorough 0..65536, plus MiB sizes) and every word count in [-4096,4096] (thorough +-10^6), int extremes and values congruent to valid counts modulo 2^32 are tried; success iff one of the five sizes, otherwise the sentinel error, the empty string and zero reads of the source; counts congruent to a valid one modulo 2^k (k = 8..63) are included and the range job also runs in a 32-bit (GOARCH=386) build where int is 32 bits wide.",
          "With an unsupported language only the shape of the result is asserted.", "6/C09"),
  "C10": ("exploration",
@@ -53,7 +53,7 @@ P = {
          "All 10 x 2048 list words are placed in valid sentences at every word count and respelled in NFC/NFD/NFKC/NFKD/full-width with both separators, and with up to three compatibility twins per word (CJK compatibility ideographs, Kangxi radicals, precomposed kana/Hangul/letters); generated valid, single-defect and arbitrary strings are respelled by forms, per-token forms, every NFKD-space, and inverse-NFKD substitution (optionally restricted to low runes); CheckMnemonic must give the same verdict, and accept valid sentences in every spelling, under supported and unsupported languages, also with 12 goroutines at once.",
          "The generator re-computes NFKD equality of every pair and discards (and counts) unsound variants.", "6/C10"),
  "C11": ("exploration",
-         "metamorphic relation (NFKD-equal spellings => equal seed), anchored to the reference PBKDF2 value, over a complete list-word sweep, rapid respellings and a concurrent variant",
+         "metamorphic relation (NFKD-equal spellings => equal seed), anchored to the reference PBKDF2 value, over a complete list-word sweep, rapid respellings and a concurrent variant; returned seeds are wiped by the caller between derivations (aliasing probe), one rapid case in four after a generated history of earlier calls",
          "Every list word of every language is exercised inside a 24-word sentence in NFC/NFD/NFKC/NFKD/full-width with U+0020 and U+3000 separators; generated (mnemonic, passphrase) pairs (C04's generator) are respelled by the C10 generator; seeds must be equal and equal to the reference value, also with 16 goroutines at once.",
          "", "6/C11"),
  "C12": ("exploration",
@@ -65,7 +65,7 @@ P = {
          "All 100 ordered pairs of first-used languages x 4 first-call patterns, generated histories of up to 40+ calls (unsupported languages, failing calls, re-used arguments, scripted sources, spare-capacity entropy slices, wiped seeds) run from a cold start, and thousands of long warm in-process histories; each observation must equal the history-free reference, the observation of the same call in a differently ordered process, and repeated calls must agree; caller buffers, returned strings, seeds and error values are re-checked at the end.",
          "", "6/C13"),
  "C14": ("exploration",
-         "robustness testing: grid over Language values, sizes, block-edge code points and extreme-length entropies, rapid-generated hostile arguments with a hang watchdog, coverage-guided native fuzzing in the thorough tier",
+         "robustness testing: grid over Language values, sizes, block-edge code points and extreme-length entropies, rapid-generated hostile arguments with a hang watchdog, randomness sources that fail for good (18 error kinds), fresh child processes whose 4..12 goroutines call all entry points at once with capitalised / near-miss / foreign words (fatal errors and deadlocks that recover() cannot stop), coverage-guided native fuzzing in the thorough tier",
          "Every entry point is called with every Language in [-300,300] and at integer boundaries, entropy lengths 0..1024 (thorough 0..4096), word counts at boundaries, sentences of 1..61 real words, invalid UTF-8, NULs, code points at the edges of the scripts' Unicode blocks, extreme-length entropies and 0.5-4 MiB inputs; rapid draws and (thorough) two native fuzz targets extend this. The grid also runs in a 32-bit (GOARCH=386) build. A recovered panic or a call exceeding 120 s is a violation.",
          "\"Never hangs\" is decided up to the 120 s bound.", "6/C14"),
  "C15": ("exploration",
